@@ -81,6 +81,8 @@ pub enum Op {
     DropContent,
     /// `set_stream` of these messages (single-line texts: the framing of messages is C17's subject)
     Stream(Vec<String>),
+    /// `set_json_lit` of the JSON text of this string (the literal entry point beside `set_json`)
+    JsonLit(String),
     /// `res.status = …` (a public field): the status the response is sent with is the last one assigned
     Status(u8),
 }
@@ -224,6 +226,7 @@ fn apply(res: &mut Response, op: &Op) {
         Op::Text(s) => res.set_text(s.clone()),
         Op::Html(s) => res.set_html(s.clone()),
         Op::Json(s) => res.set_json(serde_json::Value::String(s.clone())),
+        Op::JsonLit(s) => unsafe { res.set_json_lit(serde_json::to_string(&serde_json::Value::String(s.clone())).unwrap()) },
         Op::Payload(ct, b) => res.set_payload(CTS[*ct as usize % 3], b.clone()),
         Op::DropContent => {
             let _ = res.drop_content();
@@ -303,7 +306,7 @@ fn model_of(case: &Case) -> Model {
                 m.payload = Some(s.as_bytes().to_vec());
                 m.last_content_op_is_drop = false;
             }
-            Op::Json(s) => {
+            Op::Json(s) | Op::JsonLit(s) => {
                 m.stream = None;
                 m.headers.remove("Transfer-Encoding");
                 let body = serde_json::to_vec(&serde_json::Value::String(s.clone())).unwrap();
@@ -375,6 +378,7 @@ fn op_strategy() -> impl Strategy<Value = Op> {
         2 => small_text().prop_map(Op::Text),
         1 => small_text().prop_map(Op::Html),
         1 => small_text().prop_map(Op::Json),
+        1 => small_text().prop_map(Op::JsonLit),
         1 => (0u8..3, vec(any::<u8>(), 0..300)).prop_map(|(c, b)| Op::Payload(c, b)),
         2 => Just(Op::DropContent),
         1 => vec("[a-z0-9 ]{0,12}", 0..4).prop_map(Op::Stream),
@@ -441,7 +445,7 @@ impl Property for C03 {
                     Op::Remove(h) => (format!("s{}", *h as usize % STD.len()), true, false),
                     Op::SetX(h, _) | Op::AppendX(h, _) => (format!("x{}", *h as usize % CUSTOM.len()), false, true),
                     Op::RemoveX(h) => (format!("x{}", *h as usize % CUSTOM.len()), true, false),
-                    Op::Text(_) | Op::Html(_) | Op::Json(_) | Op::Payload(..) | Op::DropContent | Op::Stream(_) => {
+                    Op::Text(_) | Op::Html(_) | Op::Json(_) | Op::JsonLit(_) | Op::Payload(..) | Op::DropContent | Op::Stream(_) => {
                         content_ops += 1;
                         continue;
                     }
